@@ -37,7 +37,13 @@ def gen_sets(ctx, n):
     return out
 
 
-def op_of(names, fs, order, prefix='/q/'):
+PREFIXES = ['/q/', '/q/', '/q/', '/home/jdoe@corp.example.com/.config/containers/systemd/', '/srv/a b/', '/etc/containers/systemd/users/1000/', '/x.container.d/@/', '/%h/']
+
+
+def op_of(names, fs, order, prefix=None):
+    # the directory the units are in is an input too (it must decide nothing about names and references): chosen per set, reproducibly
+    if prefix is None:
+        prefix = PREFIXES[sum(map(len, fs.values())) % len(PREFIXES)]
     return 'convert\t0\t' + (','.join(map(str, order)) or '-') + ''.join(f'\t{hx(prefix + n)}\t{hx(fs[n])}' for n in names)
 
 
